@@ -61,7 +61,7 @@ def life_cfg(*, defects=(), K=1, props=POLICIES, obeys=POLICIES, eas=('none',), 
              module='Lifecycle', maxticks=None):
     lines = ['CONSTANTS', f'  Defects = {tla_set(defects)}', f'  K = {K}', f'  PropSet = {tla_set(props)}',
              f'  ObeySet = {tla_set(obeys)}', f'  EASet = {tla_set(eas)}', f'  WithInterrupt = {str(bool(interrupt)).upper()}',
-             f'  Emit = {str(bool(emit)).upper()}']
+             f'  Emit = {str(bool(emit)).upper()}', '  EarlyExit = TRUE']
     if module == 'Lineage':
         lines += [f'  MaxTicks = {maxticks}', 'INIT LInit', 'NEXT LNext']
         if emit:
